@@ -64,6 +64,8 @@ mod utils;
 pub use utils::*;
 mod serialization;
 mod rational;
+#[cfg(feature = "verif-hooks")]
+pub mod verif_hooks;
 
 pub use serialization::*;
 
